@@ -8,9 +8,9 @@ package main
 // as on the small data of Val(T). Nothing ABOVE the cap is enumerated: there
 // the repository refuses on purpose and the property says nothing.
 //
-// The large container is taken alone (lists [i] [C] [s], maps {ii} {Iw} {wb}
-// {si}) and in every kind of position (struct member, list element, map
-// value, tuple member). Element j is a deterministic function of j (an odd
+// The large container is taken alone (lists [i] [C] [s] [m], maps {ii} {Iw}
+// {wb} {si}) and in every kind of position (struct member, list element, map
+// value, tuple member, carried by a dynamic value: m<[i]>, m<[m]>). Element j is a deterministic function of j (an odd
 // multiplier modulo the width: keys are distinct by construction). The
 // oracle is the usual one; the entries of a map may be written in any order,
 // which for thousands of entries is decided by comparing the multiset of
@@ -30,16 +30,22 @@ const sizeCap = 4096
 
 type boundarySpec struct {
 	sig  string
-	path []int // position of the large container (nil: the datum itself)
+	path []int  // position of the large container (nil: the datum itself)
+	dyn  string // for sig "m": the signature of the large container the value carries
 }
 
 var boundarySpecs = []boundarySpec{
-	{"[i]", nil}, {"[C]", nil}, {"[s]", nil},
-	{"{ii}", nil}, {"{Iw}", nil}, {"{wb}", nil}, {"{si}", nil},
-	{"(c{Iw}W)<S,a,b,c>", []int{1}}, // struct member
-	{"[{ii}]", []int{0}},            // list element
-	{"{i{ii}}", []int{1}},           // map value
-	{"([i])", []int{0}},             // tuple member
+	{"[i]", nil, ""}, {"[C]", nil, ""}, {"[s]", nil, ""},
+	{"{ii}", nil, ""}, {"{Iw}", nil, ""}, {"{wb}", nil, ""}, {"{si}", nil, ""},
+	{"(c{Iw}W)<S,a,b,c>", []int{1}, ""}, // struct member
+	{"[{ii}]", []int{0}, ""},            // list element
+	{"{i{ii}}", []int{1}, ""},           // map value
+	{"([i])", []int{0}, ""},             // tuple member
+	// dynamic values (type/value has its own copy of the cap): a list of
+	// 4096 values, and a value that carries a large list
+	{"[m]", nil, ""},
+	{"m", []int{0}, "[i]"},
+	{"m", []int{0}, "[m]"},
 }
 
 var boundaryCounts = []int{sizeCap - 1, sizeCap}
@@ -60,6 +66,8 @@ func nth(t *refmodel.Type, j int) *refmodel.Datum {
 		return &refmodel.Datum{T: t, U: uint64((j / 3) & 1)}
 	case refmodel.String:
 		return &refmodel.Datum{T: t, S: fmt.Sprintf("k%04d", j)}
+	case refmodel.Value:
+		return &refmodel.Datum{T: t, Dyn: nth(refmodel.Atom('i'), j)}
 	}
 	w := t.Kind.Width()
 	if w <= 0 {
@@ -94,9 +102,22 @@ func putAt(d *refmodel.Datum, path []int, nd *refmodel.Datum) *refmodel.Datum {
 		return nd
 	}
 	c := *d
+	if d.T.Kind == refmodel.Value {
+		c.Dyn = putAt(d.Dyn, path[1:], nd)
+		return &c
+	}
 	c.Elems = append([]*refmodel.Datum(nil), d.Elems...)
 	c.Elems[path[0]] = putAt(d.Elems[path[0]], path[1:], nd)
 	return &c
+}
+
+// sigName names the signature of a case; a dynamic value is written with
+// the signature it carries.
+func sigName(d *refmodel.Datum) string {
+	if d.T.Kind == refmodel.Value {
+		return "m<" + d.Dyn.T.String() + ">"
+	}
+	return d.T.String()
 }
 
 // withCount returns a copy of d in which the container at path keeps its
@@ -117,6 +138,10 @@ func boundaryCases() []boundaryCase {
 		t := refmodel.MustParse(sp.sig)
 		base := enum.Dist(t)
 		for _, n := range boundaryCounts {
+			if sp.dyn != "" {
+				out = append(out, boundaryCase{&refmodel.Datum{T: t, Dyn: large(refmodel.MustParse(sp.dyn), n)}, sp.path, n})
+				continue
+			}
 			out = append(out, boundaryCase{putAt(base, sp.path, large(base.Child(sp.path).T, n)), sp.path, n})
 		}
 	}
@@ -209,7 +234,7 @@ func reportBoundary(bc boundaryCase, ep entryPoint, dl delivery, clause string) 
 	min := withCount(cur, path, hi)
 	mclause, det := ep.eval(min, dl)
 	if mclause == "" || fails(withCount(cur, path, hi-1)) {
-		run.EngineError("boundary: reduction of %s with %d entries lost the failure", bc.d.T, bc.n)
+		run.EngineError("boundary: reduction of %s with %d entries lost the failure", sigName(bc.d), bc.n)
 		return
 	}
 	pos := "top"
@@ -228,13 +253,13 @@ func reportBoundary(bc boundaryCase, ep entryPoint, dl delivery, clause string) 
 	if run.Fail(fp, rank) {
 		det = clip(det, 600)
 		val := clip(min.String(), 200)
-		run.Keep(fp, rank, fmt.Sprintf("%s on signature %q, a %s of %d entries (%d entries are handled): value %s (documented serialization %s): %s",
-			ep.name, min.T, kind, hi, hi-1, val, hexs(b), det),
-			map[string]interface{}{"entry": ep.name, "signature": min.T.String(), "go_type": gobridge.GoType(min.T).String(),
+		run.Keep(fp, rank, fmt.Sprintf("%s on signature %s, a %s of %d entries (%d entries are handled): value %s (documented serialization %s): %s",
+			ep.name, sigName(min), kind, hi, hi-1, val, hexs(b), det),
+			map[string]interface{}{"entry": ep.name, "signature": sigName(min), "go_type": gobridge.GoType(min.T).String(),
 				"entries": hi, "entries_handled": hi - 1, "documented_cap": sizeCap, "value": val,
 				"value_rule":   "entry j of the large container: key = nth(keytype, j), value = nth(valuetype, entries-1-j), nth = (j+1)*0x9E3779B1 truncated to the width (strings \"k%04d\", booleans (j/3)&1), first entries kept",
 				"refmodel_hex": hexs(b), "delivery": dl.String(), "clause": mclause, "observed": det,
-				"found_in": fmt.Sprintf("%s with %d entries", bc.d.T, bc.n)},
+				"found_in": fmt.Sprintf("%s with %d entries", sigName(bc.d), bc.n)},
 			func() bool { c, _ := ep.eval(min, dl); return c == mclause })
 	}
 }
@@ -281,7 +306,10 @@ func familyBoundary() (int64, []string) {
 		bc := cases[i]
 		d := bc.d
 		tag := fmt.Sprintf("%s#n=%d", d.T.Shape(), bc.n)
-		descr[i] = fmt.Sprintf("%s with %d entries (%d bytes)", d.T, bc.n, len(refmodel.Encode(d)))
+		if d.T.Kind == refmodel.Value {
+			tag = fmt.Sprintf("m:%s#n=%d", d.Dyn.T.Shape(), bc.n)
+		}
+		descr[i] = fmt.Sprintf("%s with %d entries (%d bytes)", sigName(d), bc.n, len(refmodel.Encode(d)))
 		g.Begin("codec/hang/"+tag, func() (string, interface{}) {
 			return fmt.Sprintf("a codec call on signature %q, large container of %d entries", d.T, bc.n),
 				map[string]interface{}{"signature": d.T.String(), "entries": bc.n, "refmodel_hex": hexs(refmodel.Encode(d))}
